@@ -1703,54 +1703,71 @@ REF_FCN REF_STATUS ref_import_by_extension(REF_GRID *ref_grid_ptr,
 
   end_of_string = strlen(filename);
 
-  if (strcmp(&filename[end_of_string - 10], ".lb8.ugrid") == 0) {
+  if (end_of_string > 10 &&
+      strcmp(&filename[end_of_string - 10], ".lb8.ugrid") == 0) {
     RSS(ref_import_bin_ugrid(ref_grid_ptr, ref_mpi, filename, REF_FALSE,
                              REF_FALSE),
         "lb8_ugrid failed");
-  } else if (strcmp(&filename[end_of_string - 9], ".b8.ugrid") == 0) {
+  } else if (end_of_string > 9 &&
+             strcmp(&filename[end_of_string - 9], ".b8.ugrid") == 0) {
     RSS(ref_import_bin_ugrid(ref_grid_ptr, ref_mpi, filename, REF_TRUE,
                              REF_FALSE),
         "b8_ugrid failed");
-  } else if (strcmp(&filename[end_of_string - 11], ".lb8l.ugrid") == 0) {
+  } else if (end_of_string > 11 &&
+             strcmp(&filename[end_of_string - 11], ".lb8l.ugrid") == 0) {
     RSS(ref_import_bin_ugrid(ref_grid_ptr, ref_mpi, filename, REF_FALSE,
                              REF_TRUE),
         "lb8_ugrid failed");
-  } else if (strcmp(&filename[end_of_string - 10], ".b8l.ugrid") == 0) {
+  } else if (end_of_string > 10 &&
+             strcmp(&filename[end_of_string - 10], ".b8l.ugrid") == 0) {
     RSS(ref_import_bin_ugrid(ref_grid_ptr, ref_mpi, filename, REF_TRUE,
                              REF_TRUE),
         "b8_ugrid failed");
-  } else if (strcmp(&filename[end_of_string - 12], ".lb8.ugrid64") == 0) {
+  } else if (end_of_string > 12 &&
+             strcmp(&filename[end_of_string - 12], ".lb8.ugrid64") == 0) {
     RSS(ref_import_bin_ugrid(ref_grid_ptr, ref_mpi, filename, REF_FALSE,
                              REF_TRUE),
         "lb8_ugrid failed");
-  } else if (strcmp(&filename[end_of_string - 11], ".b8.ugrid64") == 0) {
+  } else if (end_of_string > 11 &&
+             strcmp(&filename[end_of_string - 11], ".b8.ugrid64") == 0) {
     RSS(ref_import_bin_ugrid(ref_grid_ptr, ref_mpi, filename, REF_TRUE,
                              REF_TRUE),
         "b8_ugrid failed");
-  } else if (strcmp(&filename[end_of_string - 9], ".r8.ugrid") == 0) {
+  } else if (end_of_string > 9 &&
+             strcmp(&filename[end_of_string - 9], ".r8.ugrid") == 0) {
     RSS(ref_import_r8_ugrid(ref_grid_ptr, ref_mpi, filename),
         "r8_ugrid failed");
-  } else if (strcmp(&filename[end_of_string - 6], ".ugrid") == 0) {
+  } else if (end_of_string > 6 &&
+             strcmp(&filename[end_of_string - 6], ".ugrid") == 0) {
     RSS(ref_import_ugrid(ref_grid_ptr, ref_mpi, filename), "ugrid failed");
-  } else if (strcmp(&filename[end_of_string - 4], ".tri") == 0) {
+  } else if (end_of_string > 4 &&
+             strcmp(&filename[end_of_string - 4], ".tri") == 0) {
     RSS(ref_import_tri(ref_grid_ptr, ref_mpi, filename), "tri failed");
-  } else if (strcmp(&filename[end_of_string - 5], ".surf") == 0) {
+  } else if (end_of_string > 5 &&
+             strcmp(&filename[end_of_string - 5], ".surf") == 0) {
     RSS(ref_import_surf(ref_grid_ptr, ref_mpi, filename), "surf failed");
-  } else if (strcmp(&filename[end_of_string - 6], ".fgrid") == 0) {
+  } else if (end_of_string > 6 &&
+             strcmp(&filename[end_of_string - 6], ".fgrid") == 0) {
     RSS(ref_import_fgrid(ref_grid_ptr, ref_mpi, filename), "fgrid failed");
-  } else if (strcmp(&filename[end_of_string - 4], ".su2") == 0) {
+  } else if (end_of_string > 4 &&
+             strcmp(&filename[end_of_string - 4], ".su2") == 0) {
     RSS(ref_import_su2(ref_grid_ptr, ref_mpi, filename), "su2 failed");
-  } else if (strcmp(&filename[end_of_string - 4], ".msh") == 0) {
+  } else if (end_of_string > 4 &&
+             strcmp(&filename[end_of_string - 4], ".msh") == 0) {
     RSS(ref_import_msh(ref_grid_ptr, ref_mpi, filename), "msh failed");
-  } else if (strcmp(&filename[end_of_string - 5], ".node") == 0) {
+  } else if (end_of_string > 5 &&
+             strcmp(&filename[end_of_string - 5], ".node") == 0) {
     RSS(ref_import_tetgen_node(ref_grid_ptr, ref_mpi, filename),
         "tetgen node failed");
-  } else if (strcmp(&filename[end_of_string - 6], ".meshb") == 0) {
+  } else if (end_of_string > 6 &&
+             strcmp(&filename[end_of_string - 6], ".meshb") == 0) {
     RSS(ref_import_meshb(ref_grid_ptr, ref_mpi, filename), "meshb failed");
-  } else if (strcmp(&filename[end_of_string - 5], ".grid") == 0) {
+  } else if (end_of_string > 5 &&
+             strcmp(&filename[end_of_string - 5], ".grid") == 0) {
     RSS(ref_import_i_like_cfd_grid(ref_grid_ptr, ref_mpi, filename),
         "I Like CFD grid failed");
-  } else if (strcmp(&filename[end_of_string - 4], ".avm") == 0) {
+  } else if (end_of_string > 4 &&
+             strcmp(&filename[end_of_string - 4], ".avm") == 0) {
     RSS(ref_part_by_extension(ref_grid_ptr, ref_mpi, filename), "part failed");
   } else {
     printf("%s: %d: %s %s\n", __FILE__, __LINE__,
